@@ -12,6 +12,7 @@ import (
 	"math"
 	"math/big"
 	"strings"
+	"strconv"
 )
 
 const (
@@ -1133,6 +1134,17 @@ func (c *Ctx) specCall(x *SCall) *Val {
 			a, b := c.evalSpec(x.Args[0]), c.evalSpec(x.Args[1])
 			at, btm := c.specUnify(a.T, b.T)
 			return Scalar(StructEq(at, btm), bt)
+		case "fl":
+			// fl(literal): the float64 nearest to a decimal literal, as an exact rational (Go rounds constants the same way)
+			n, ok := x.Args[0].(*SNum)
+			if !ok {
+				c.refuse("fl() needs a numeric literal")
+			}
+			f, err := strconv.ParseFloat(n.Text, 64)
+			if err != nil {
+				c.refuse("fl(%s): %v", n.Text, err)
+			}
+			return Scalar(RealLitRat(new(big.Rat).SetFloat64(f)), types.Typ[types.Float64])
 		case "floor":
 			// same shape as the code's int(math.Floor(x))
 			v := c.evalSpec(x.Args[0])
